@@ -379,12 +379,19 @@ SPEC = {
             "uses, enum named like its namespace), structs with a method whose body uses names, typedefs of qualified struct / enum "
             "types, functions with parameters named like namespaces / globals, locals and nested blocks shadowing namespace members, "
             "`::`-prefixed paths and every relative suffix of the full path from every position (same namespace, sibling, nested, "
-            "root, method body, nested block, namespace-level `static PATH g;`), declarations before / after a homonym, and (1 in 10) "
+            "root, method body, nested block, namespace-level `static PATH g;`), declarations before / after a homonym, names the "
+            "exporter has to RENAME (reserved words of the output language that are plain identifiers of the source: texture / pass "
+            "/ technique, for every declaration kind; several symbols of one name in a scope) together with locals / parameters "
+            "(1 in 3) spelled exactly like a generated name `<name>_<k>`, k = 0..2, of something declared before and followed by "
+            "uses of that entity in the scope of the local (type: declaration, cast / enum variable, enum value; control: call of "
+            "the function, assignment of the global), entities spelled like generated names (kept verbatim), and (1 in 10) "
             "a use that must not resolve; every declaration carries its id as a constant and every use its ordinal, so both emitted "
             "texts say which entity each use refers to; oracle = the emitted text is accepted and the second text is byte-identical; "
             "the harness's own scope simulation of the exported program (rebuilt from the printed text) names the class of a failure "
-            "that is an emitted relative path meeting a closer homonym (known findings names:relative-path-captured/..) - any other "
-            "failure is a violation with the descriptor as input",
+            "that is an emitted relative path meeting a closer homonym (known findings names:relative-path-captured/..); a use "
+            "printed under a GENERATED name (printed leaf differs from the source leaf) that meets a local printed with that very "
+            "name is set apart (`generated-name-taken-by-local`: the collision is of the exporter's own making, never a known "
+            "class) - this and any other failure is a violation with the descriptor as input",
     "level_text": "Proof by composition, machine-checked for expressions. (1) reelab_no_new_casts: for every expression of the C03 "
                   "elaboration model (all operators, ?:, comma, casts, calls through overload resolution; scalar / vector / matrix / "
                   "modified types; induction over all source expressions, debug and release builds) every syntax tree the front end "
@@ -437,7 +444,20 @@ SPEC = {
                   "emitted_literal_kind_int32_witness: for an Int32 argument (f<K>, f<(int)3>) the call site prints a bare literal, "
                   "`int y = N + 1` is Add(Int32, Int32) first and Cast(int, Add(IntLiteral, IntLiteral)) second (known finding, "
                   "reproducers in the corpus); mutant_discipline_loses_literal_kind: recording a literal argument as Int32 (seeded "
-                  "mutant C04-4) puts f<3> into that case. The legs' property theorems (C10 literals, C09 round trip, C15 "
+                  "mutant C04-4) puts f<3> into that case. (7) Generated names against locals: types are emitted as root-relative paths, "
+                  "locals as plain identifiers, and the lookup reads the locals of a scope first; "
+                  "local_meets_only_kept_names - for every input of C15's model of NameMap::build (any namespaces, entries, "
+                  "locals, reserved list) a local / parameter printed with the name of a namespace, struct, enum, enum value, global "
+                  "or function meets a symbol that kept its source name; generated_names_apart_from_locals - a symbol printed under "
+                  "a generated name (texture -> texture_0; A next to a namespace A -> A_1) shares it with no local (proof: a scope "
+                  "names a symbol with its source name or with a candidate it records in St.gen, scopeRun_src_or_gen, and the local "
+                  "pass starts from reserved ++ gen of all scopes ++ used names and never picks a member of its start set); "
+                  "generated_names_reserved_as_modelled pins every statement of NameMap::build that touches used_names_all_scopes "
+                  "(created before the per-scope loop, every inserted candidate recorded, usage loop, test and extension by the "
+                  "local pass) to the re-extracted Gen.NameReserve; late_set_loses_generated_type_names: with the set created after "
+                  "the loop (seeded mutant C04-5, buildLate - not the code) struct texture / enum pass and the locals texture_0 / "
+                  "pass_0 are all printed texture_0 / pass_0 while a used function is still avoided (program in the corpus). What "
+                  "remains for kept names is the known capture class by-local. The legs' property theorems (C10 literals, C09 round trip, C15 "
                   "names) and their Gen tables are obligations of C04. Partial: structural statements, declarations, structs, "
                   "template instantiation itself (naming of instances, headers, loops / switch / array sizes in instance bodies), intrinsic calls and the text leg of trees with casts are not in a Lean composition theorem; they are "
                   "exercised by the whole-program fixpoint run and the re-elaboration stream.",
@@ -460,6 +480,10 @@ SPEC = {
         "trusted for naming the known class only",
         "the C04.reelab correspondence run: the model's prediction of the second-generation IR skeleton vs the real front end on the "
         "real emitted text",
+        "Model/Names.lean (C15's model of NameMap::build, tied by C15's correspondence run and Gen.Reserved) under the theorems of "
+        "section GeneratedNames; Gen.NameReserve (tools/gens/c04.py: block structure of NameMap::build read by brace matching on "
+        "the comment-stripped source); the source-side simulation of harness/src/c04/names.rs (entity ids, source leaf names) is "
+        "trusted for telling a generated name from a kept one when a failure is classified",
         "Model/FixpointNames.lean (scope table, walkInto / findInScope / find, the descriptor machine exec = symbol insertion of "
         "enter_namespace / insert_global / insert_function_in_scope / begin_struct / begin_enum / register_enum_value / register_typedef "
         "/ insert_variable, exportInstrs = the program the second generation sees) - tied by path_lookup_as_modelled "
@@ -477,6 +501,9 @@ SPEC = {
         "the names model has no overload sets with more than one function, no templates, no cbuffers and no struct-qualified "
         "paths (the code has none either: walk_into_scopes enters namespaces and enums only); those are exercised by the "
         "free-form sources of the corpus / search list through the whole-program oracle",
+        "generated_names_apart_from_locals is about the name map; that a local of that name would capture the printed type is the "
+        "stage order of find_identifier_in_scope (path_lookup_as_modelled) and is exercised, not proved, for whole programs "
+        "(C04.names); member names of structs are outside NameMap::build's local pass (TODO in the code)",
         "the constant evaluator keeps the kind of a literal and of a negated literal (C02's evaluator model): assumed by "
         "secondRecordKind; 64-bit template arguments are outside the Scalar model (parse_literal refuses 64-bit literals)",
         "the print / parse round trip of exported trees that contain casts is assumed (ParsesBack): C09's model has no cast node",
